@@ -590,7 +590,7 @@ fn apply_event_eager(b: &mut umya::Spreadsheet, ev: &Ev) {
 
 fn op_sheet(op: &Op) -> Option<usize> {
     match op {
-        Op::SetText { sheet, .. } | Op::SetRich { sheet, .. } | Op::SetNum { sheet, .. } | Op::SetBool { sheet, .. } | Op::SetFormula { sheet, .. } | Op::SetBlank { sheet, .. } | Op::RemoveCell { sheet, .. } | Op::Bold { sheet, .. } | Op::NumFmt { sheet, .. } | Op::FillColor { sheet, .. } | Op::Hyperlink { sheet, .. } | Op::Comment { sheet, .. } | Op::Merge { sheet, .. } | Op::DefinedName { sheet, .. } | Op::LocalName { sheet, .. } | Op::SheetRemoveRow { sheet, .. } | Op::SheetRemoveCol { sheet, .. } | Op::SheetInsertRow { sheet, .. } | Op::ColWidth { sheet, .. } | Op::RowHeight { sheet, .. } | Op::SetState { sheet, .. } | Op::Table { sheet, .. } | Op::CommentRich { sheet, .. } | Op::EditComment { sheet, .. } | Op::Format { sheet, .. } | Op::HideRow { sheet, .. } | Op::HideCol { sheet, .. } | Op::ClearComments { sheet } => Some(*sheet),
+        Op::SetText { sheet, .. } | Op::SetRich { sheet, .. } | Op::SetNum { sheet, .. } | Op::SetBool { sheet, .. } | Op::SetFormula { sheet, .. } | Op::SetBlank { sheet, .. } | Op::RemoveCell { sheet, .. } | Op::Bold { sheet, .. } | Op::NumFmt { sheet, .. } | Op::FillColor { sheet, .. } | Op::Hyperlink { sheet, .. } | Op::Comment { sheet, .. } | Op::Merge { sheet, .. } | Op::DefinedName { sheet, .. } | Op::LocalName { sheet, .. } | Op::SheetRemoveRow { sheet, .. } | Op::SheetRemoveCol { sheet, .. } | Op::SheetInsertRow { sheet, .. } | Op::ColWidth { sheet, .. } | Op::RowHeight { sheet, .. } | Op::SetState { sheet, .. } | Op::Table { sheet, .. } | Op::CommentRich { sheet, .. } | Op::EditComment { sheet, .. } | Op::Format { sheet, .. } | Op::HideRow { sheet, .. } | Op::HideCol { sheet, .. } | Op::ClearComments { sheet } | Op::RowStyle { sheet, .. } | Op::ColStyle { sheet, .. } | Op::Image { sheet, .. } => Some(*sheet),
         _ => None,
     }
 }
